@@ -676,6 +676,23 @@ func run(r *harness.Run) {
 		ab.WriteByte(']')
 		doText([]byte(sb.String()), obj)
 		doText([]byte(ab.String()), arr)
+		if c.n < 5000 && c.ks <= 1 {
+			// the same members with small objects as values, their own keys out of order: sorting is recursive whatever the
+			// order in which the wide object itself arrived
+			nobj := &refjson.Value{Kind: refjson.Object}
+			var nb strings.Builder
+			nb.WriteByte('{')
+			for j, m := range obj.Members {
+				if j > 0 {
+					nb.WriteByte(',')
+				}
+				inner := &refjson.Value{Kind: refjson.Object, Members: []refjson.Member{{Key: "y", Val: m.Val}, {Key: "x", Val: &refjson.Value{Kind: refjson.Number, Num: "1"}}}}
+				nobj.Members = append(nobj.Members, refjson.Member{Key: m.Key, Val: inner})
+				nb.WriteString(`"` + m.Key + `":{"y":` + m.Val.Num + `,"x":1}`)
+			}
+			nb.WriteByte('}')
+			doText([]byte(nb.String()), nobj)
+		}
 		if (c.ks == 3 || c.ord == 1) && c.n < 60000 {
 			// nested: as a member value (an event's content.users), inside an array, and next to a second wide object
 			doText([]byte(`{"z":1,"content":{"users":`+sb.String()+`,"a":[`+ab.String()+`]},"a":0}`), nil)
